@@ -79,6 +79,7 @@ type hist struct {
 	Lookups  []string `json:"lookups,omitempty"`
 	Cuts     []cutIn  `json:"cuts,omitempty"`
 	CutLooks []string `json:"cut_lookups,omitempty"`
+	Session  []string `json:"session,omitempty"` // lookups performed one after the other on one open handle
 	Blocks   []blkIn  `json:"blocks,omitempty"`
 	// a writer that died before Save at the same path: records it wrote + a torn tail
 	Old     []recIn `json:"old,omitempty"`
@@ -104,11 +105,13 @@ type task struct {
 	HasHdr   bool   `json:"has_hdr"`
 	OpenOnly bool   `json:"open_only"`
 	Key      string `json:"key"` // hex
+	Keys     []string `json:"keys,omitempty"` // session: all these lookups, in this order, on ONE open handle
 }
 type result struct {
 	ID   int    `json:"id"`
 	Kind string `json:"kind"` // opened|openerr|openpanic|rec|notfound|err|panic|timeout
 	Data string `json:"data"` // hex: record payload or header payload
+	Multi []result `json:"multi,omitempty"` // session: one result per key
 }
 
 func runTask(t task) (res result) {
@@ -146,6 +149,13 @@ func runTask(t task) (res result) {
 		return
 	}
 	stage = "read"
+	if len(t.Keys) > 0 {
+		res.Kind = "session"
+		for _, k := range t.Keys {
+			res.Multi = append(res.Multi, readOne(db, k))
+		}
+		return
+	}
 	rec := &rawRec{}
 	err = db.Read(blockdb.Key(unhex(t.Key)), rec)
 	switch {
@@ -156,6 +166,27 @@ func runTask(t task) (res result) {
 		res.Kind = "notfound"
 	default:
 		res.Kind = "err"
+	}
+	return
+}
+
+// readOne: one lookup on an already open handle.
+func readOne(db *blockdb.BlockDB, key string) (r result) {
+	defer func() {
+		if recover() != nil {
+			r.Kind = "panic"
+		}
+	}()
+	rec := &rawRec{}
+	err := db.Read(blockdb.Key(unhex(key)), rec)
+	switch {
+	case err == nil:
+		r.Kind = "rec"
+		r.Data = hex.EncodeToString(rec.data)
+	case err == blockdb.ErrKeyNotFound:
+		r.Kind = "notfound"
+	default:
+		r.Kind = "err"
 	}
 	return
 }
@@ -284,6 +315,7 @@ type dbRun struct {
 	layoutOK   bool
 	openID     int
 	lookIDs    []int
+	sessionID  int
 	cutOpenIDs []int
 	cutLookIDs [][]int
 	writeErr   string
@@ -589,10 +621,22 @@ func genDB(r *vh.Rand, big bool) hist {
 	if big {
 		n = r.Range(0, 60)
 	}
-	if r.Chance(1, 12) {
+	large := 0
+	switch {
+	case !big && r.Chance(1, 8):
+		large = 1
+		n = r.Range(8, 14)
+	case big && r.Chance(1, 4):
+		large = 2
+		n = r.Range(30, 60)
+	case big && r.Chance(1, 3):
+		large = 1
+		n = r.Range(10, 40)
+	}
+	if large == 0 && r.Chance(1, 12) {
 		n = 0
 	}
-	if r.Chance(1, 8) {
+	if large == 0 && r.Chance(1, 8) {
 		n = 1
 	}
 	var keys []string
@@ -610,6 +654,11 @@ func genDB(r *vh.Rand, big bool) hist {
 		}
 		if big && r.Chance(1, 10) {
 			pl = r.Range(200, 3000)
+		}
+		if large == 1 { // data file well above the 4 KB of a bufio.Reader
+			pl = r.Range(300, 700)
+		} else if large == 2 { // above 64 KB
+			pl = r.Range(1500, 4000)
 		}
 		var p []byte
 		if r.Bool() {
@@ -673,6 +722,25 @@ func genDB(r *vh.Rand, big bool) hist {
 	na := r.Range(2, 5)
 	for i := 0; i < na; i++ {
 		add(absent())
+	}
+	// one open handle, many lookups: reverse order, repeats, random order, absent keys in between
+	{
+		var ks []string
+		for i := len(keys) - 1; i >= 0; i-- {
+			ks = append(ks, keys[i])
+		}
+		for i := 0; i < len(keys)+3; i++ {
+			if len(keys) > 0 && !r.Chance(1, 4) {
+				k := keys[r.Intn(len(keys))]
+				ks = append(ks, k)
+				if r.Chance(1, 3) {
+					ks = append(ks, k) // the same key again
+				}
+			} else {
+				ks = append(ks, absent())
+			}
+		}
+		h.Session = ks
 	}
 	// crash points: the files cut at sampled byte positions (sizes are known only after
 	// writing; -1 placeholders are resolved by resolveCuts)
@@ -932,6 +1000,12 @@ func main() {
 			_, _, present := lastWritten(it.h, k)
 			run.lookIDs = append(run.lookIDs, newTask(t, !present))
 		}
+		run.sessionID = -1
+		if len(it.h.Session) > 0 {
+			t := base
+			t.Keys = it.h.Session
+			run.sessionID = newTask(t, false)
+		}
 		for ci, c := range it.h.Cuts {
 			cdir := filepath.Join(dir, fmt.Sprintf("c%d", ci))
 			_ = os.MkdirAll(cdir, 0o755)
@@ -1102,6 +1176,36 @@ func main() {
 				}
 			}
 		}
+		// many lookups on one open handle: every one returns exactly the record of its key
+		var sess []result
+		if run.sessionID >= 0 {
+			sr := res[run.sessionID]
+			sess = sr.Multi
+			if sr.Kind != "session" || len(sess) != len(h.Session) {
+				if sr.Kind == "timeout" {
+					addFail("same-handle-lookup-hangs", "", -1)
+				} else {
+					addFail("same-handle-session-failed", "", -1)
+				}
+				sess = nil
+			}
+			for j, r := range sess {
+				k := h.Session[j]
+				want, _, present := lastWritten(h, k)
+				switch {
+				case present && r.Kind == "rec" && bytes.Equal(unhex(r.Data), want):
+					kinds["same-handle-read-back"]++
+				case present:
+					kinds["same-handle-"+r.Kind+"-for-present-key"]++
+					addFail("same-handle-read-returns-another-record", k, -1)
+				case r.Kind == "notfound":
+					kinds["same-handle-absent-not-found"]++
+				default:
+					kinds["same-handle-absent-"+r.Kind]++
+					addFail("same-handle-absent-key-"+r.Kind, k, -1)
+				}
+			}
+		}
 		// crash cuts
 		cutFailed, cutOpened := 0, 0
 		for ci := range h.Cuts {
@@ -1184,6 +1288,10 @@ func main() {
 			for j, k := range h.Lookups {
 				looks = append(looks, vh.Pair(zbytes(unhex(k)), outTerm(res[run.lookIDs[j]], h.Compress)))
 			}
+			var sessT []string
+			for j, r := range sess {
+				sessT = append(sessT, vh.Pair(zbytes(unhex(h.Session[j])), outTerm(r, h.Compress)))
+			}
 			for ci, c := range h.Cuts {
 				var cl []string
 				for j, k := range h.CutLooks {
@@ -1199,9 +1307,9 @@ func main() {
 			if h.Hdr != nil {
 				hdrPlain = vh.Some(zbytes(unhex(*h.Hdr)))
 			}
-			cf.Add(fmt.Sprintf("{| bdc_klen := %s; bdc_comp := %s; bdc_ws := %s; bdc_plain := %s; bdc_sh := %s; bdc_hdr_plain := %s; bdc_old := %s; bdc_data := %s; bdc_hdr := %s; bdc_open_out := %s; bdc_looks := %s; bdc_cuts := %s |}",
+			cf.Add(fmt.Sprintf("{| bdc_klen := %s; bdc_comp := %s; bdc_ws := %s; bdc_plain := %s; bdc_sh := %s; bdc_hdr_plain := %s; bdc_old := %s; bdc_data := %s; bdc_hdr := %s; bdc_open_out := %s; bdc_looks := %s; bdc_session := %s; bdc_cuts := %s |}",
 				vh.Nat(h.Klen), vh.Bool(h.Compress), vh.List(ws), vh.List(plain), zbytes(sh), hdrPlain, zbytes(run.old), zbytes(run.data), zbytes(run.hdr),
-				openTerm(res[run.openID]), vh.List(looks), vh.List(cuts)))
+				openTerm(res[run.openID]), vh.List(looks), vh.List(sessT), vh.List(cuts)))
 			rep.CaseInputs = append(rep.CaseInputs, h)
 		}
 		for fail, fk := range fails {
@@ -1214,8 +1322,13 @@ func main() {
 					h2.Lookups = nil
 					h2.CutLooks = []string{failKey}
 					h2.Cuts = []cutIn{h.Cuts[failCut]}
+				} else if strings.HasPrefix(fail, "same-handle") {
+					h2.Lookups = nil
+					h2.Cuts = nil
+					h2.CutLooks = nil
 				} else {
 					h2.Lookups = []string{failKey}
+					h2.Session = nil
 					h2.Cuts = nil
 					h2.CutLooks = nil
 				}
